@@ -40,19 +40,38 @@ func (a aspectJ) aspect() font.Aspect {
 
 // narrowCase is the replayable form of one evaluation.
 type narrowCase struct {
-	Candidates []aspectJ `json:"candidates"`
+	// Candidates: the aspects handed to the matcher (hook path: they are the whole font set, the
+	// candidate list is the identity). Empty for an embedded case.
+	Candidates []aspectJ `json:"candidates,omitempty"`
 	Query      aspectJ   `json:"query"`
 	// Path: "hook" (fontSet.retainsBestMatches through the verif hook) or one of the public paths
 	// AddFace -> SetQuery -> ResolveFace -> FontMetadata: "public-exact" (the query names the
-	// family of the faces: step 1 of ResolveFace), "public-script" (unknown family, script set:
-	// step 2), "public-manual" (unknown family, no script: step 3).
+	// family of the candidate faces: step 1 of ResolveFace), "public-script" (unknown family,
+	// script set: step 2), "public-manual" (unknown family, no script: step 3).
 	Path string `json:"path"`
+	// Embedded form (public paths): Set is the WHOLE font set in insertion order, Roles[i] tells
+	// what face i is: -1 = decoy, a face the selection of the path must not hand to the matcher
+	// (another family / no coverage of the script / a system font), else candidate of priority
+	// class 0..3 (class&1: file extension .otf instead of .ttf; class&2: "mono" in the family; the
+	// classes each path honours order the candidate list, see embeddedOrder). The candidate list
+	// the matcher receives is therefore an arbitrary subset of the set's indices in an arbitrary
+	// order.
+	Set   []aspectJ `json:"set,omitempty"`
+	Roles []int     `json:"roles,omitempty"`
 }
 
 func mkCase(cands []font.Aspect, q font.Aspect, path string) narrowCase {
 	c := narrowCase{Query: toJ(q), Path: path}
 	for _, a := range cands {
 		c.Candidates = append(c.Candidates, toJ(a))
+	}
+	return c
+}
+
+func mkEmbedded(set []font.Aspect, roles []int, q font.Aspect, path string) narrowCase {
+	c := narrowCase{Query: toJ(q), Path: path, Roles: append([]int(nil), roles...)}
+	for _, a := range set {
+		c.Set = append(c.Set, toJ(a))
 	}
 	return c
 }
@@ -105,45 +124,104 @@ func checkHook(t ev.TB, cands []font.Aspect, q font.Aspect) (want font.Aspect) {
 
 // ---- public path ----
 
-const poolFont = "harfbuzz/harfbuzz_reference/aots/fonts/gsub1_1_simple_f1.otf" // 99 runes, Latin
-
-var (
-	poolOnce sync.Once
-	pool     []*font.Face // distinct *font.Font objects with the same coverage
-	poolErr  error
+const (
+	poolFont  = "harfbuzz/harfbuzz_reference/aots/fonts/gsub1_1_simple_f1.otf"                            // 99 runes, Latin
+	decoyFont = "harfbuzz/harfbuzz_reference/in-house/fonts/43ef465752be9af900745f72fe29cb853a1401a5.ttf" // 9 runes, Hebrew only
+	poolSize  = 20
 )
 
-func facePool() ([]*font.Face, error) {
+var (
+	poolOnce    sync.Once
+	pool        []*font.Face // distinct *font.Font objects with the same (Latin) coverage
+	hebrewPool  []*font.Face // distinct *font.Font objects without Latin coverage
+	systemDecoy fontscan.Footprint
+	poolErr     error
+)
+
+func parseCopies(rel string) ([]*font.Face, error) {
+	b, err := corpus.Bytes(rel)
+	if err != nil {
+		return nil, err
+	}
+	var out []*font.Face
+	for i := 0; i < poolSize; i++ {
+		fs, err := font.ParseTTC(bytes.NewReader(b))
+		if err != nil || len(fs) == 0 {
+			return nil, fmt.Errorf("parsing %s: %v", rel, err)
+		}
+		out = append(out, fs[0])
+	}
+	return out, nil
+}
+
+func facePool() error {
 	poolOnce.Do(func() {
-		b, err := corpus.Bytes(poolFont)
-		if err != nil {
-			poolErr = err
+		if pool, poolErr = parseCopies(poolFont); poolErr != nil {
 			return
 		}
-		for i := 0; i < 12; i++ {
-			fs, err := font.ParseTTC(bytes.NewReader(b))
-			if err != nil || len(fs) == 0 {
-				poolErr = fmt.Errorf("parsing %s: %v", poolFont, err)
-				return
-			}
-			pool = append(pool, fs[0])
+		if hebrewPool, poolErr = parseCopies(decoyFont); poolErr != nil {
+			return
 		}
+		// a footprint as the system index would hold it (not user provided, loadable from disk)
+		systemDecoy = fontscan.VerifFootprintFromFont(pool[0].Font, fontscan.Location{File: corpus.Abs(poolFont)}, font.Description{Family: "c15 decoy"})
+		fontscan.VerifSetUserProvided(&systemDecoy, false)
 	})
-	return pool, poolErr
+	return poolErr
 }
 
 var publicPaths = []string{"public-exact", "public-script", "public-manual"}
 
-// checkPublic runs the same case through AddFace -> SetQuery -> ResolveFace -> FontMetadata. All
-// faces share family and coverage, so the face returned for a covered rune must carry the aspect
-// the specification selects; as the relative priority of manually added faces is their insertion
-// order (doc of AddFace), it must be the first added face with that aspect.
-func checkPublic(t ev.TB, cands []font.Aspect, q font.Aspect, path string) {
-	faces, err := facePool()
-	if err != nil || len(cands) > len(faces) {
-		t.Fatalf("face pool: %v", err)
+// embeddedOrder returns the indices of the candidates of an embedded case in the order in which
+// the path hands them to the matcher, as documented: exact family and script fallback lists are
+// sorted ("user provided ones come first, then "regular" over "mono" then TTF before CFF", ties in
+// insertion order; all faces of one family share the mono hint), manually added fonts are
+// "searched in the order in which they were added".
+func embeddedOrder(roles []int, path string) []int {
+	key := func(role int) int {
+		switch path {
+		case "public-exact":
+			return role & 1
+		case "public-script":
+			return role & 3
+		}
+		return 0
 	}
-	c := mkCase(cands, q, path)
+	var out []int
+	for i, r := range roles {
+		if r >= 0 {
+			out = append(out, i)
+		}
+	}
+	sort.SliceStable(out, func(a, b int) bool { return key(roles[out[a]]) < key(roles[out[b]]) })
+	return out
+}
+
+func faceFile(i, role int) string {
+	if role >= 0 && role&1 != 0 {
+		return fmt.Sprintf("c15/face%02d.otf", i)
+	}
+	return fmt.Sprintf("c15/face%02d.ttf", i)
+}
+
+// checkEmbedded drives one case through AddFace -> SetQuery -> ResolveFace -> FontMetadata. The
+// font set holds the candidates (same family / covering the script / manually added, depending on
+// the path) among decoys that the selection of the path excludes, so the matcher receives a
+// candidate list that is a subset of the set's indices, in the order given by the classes. All
+// candidates cover the rune, so the face returned must carry the aspect CSS Fonts 5.2 selects
+// among the CANDIDATES only, and be the first of the candidate list with that aspect.
+func checkEmbedded(t ev.TB, set []font.Aspect, roles []int, q font.Aspect, path string) {
+	if err := facePool(); err != nil || len(set) > poolSize || len(set) != len(roles) {
+		t.Fatalf("face pool / case shape: %v (%d faces, %d roles)", err, len(set), len(roles))
+	}
+	c := mkEmbedded(set, roles, q, path)
+	order := embeddedOrder(roles, path)
+	if len(order) == 0 {
+		return
+	}
+	cands := make([]font.Aspect, len(order))
+	for k, i := range order {
+		cands[k] = set[i]
+	}
 	var (
 		family string
 		aspect font.Aspect
@@ -152,12 +230,33 @@ func checkPublic(t ev.TB, cands []font.Aspect, q font.Aspect, path string) {
 	func() {
 		defer func() {
 			if r := recover(); r != nil {
-				ev.Fail(t, "narrow", c, "public path panicked: %v", r)
+				ev.Fail(t, "narrow", c, "%s: set=%v roles=%v query=%v: panic: %v", path, set, roles, q, r)
 			}
 		}()
 		fm := fontscan.NewFontMap(log.New(io.Discard, "", 0))
-		for i, a := range cands {
-			fm.AddFace(faces[i], fontscan.Location{File: fmt.Sprintf("c15/face%02d.otf", i)}, font.Description{Family: "C15 Family", Aspect: a})
+		for i, a := range set {
+			role := roles[i]
+			location := fontscan.Location{File: faceFile(i, role)}
+			switch {
+			case role >= 0:
+				fam := "C15 Family"
+				if path == "public-script" && role&2 != 0 {
+					fam = "C15 mono Family"
+				}
+				fm.AddFace(pool[i], location, font.Description{Family: fam, Aspect: a})
+			case path == "public-script":
+				// decoy without coverage of the script
+				fm.AddFace(hebrewPool[i], location, font.Description{Family: "c15 decoy", Aspect: a})
+			case path == "public-manual":
+				// decoy that is not a manually added font
+				fp := systemDecoy
+				fp.Aspect = a
+				fp.Location.Index = uint16(i) // (never loaded: kept distinct)
+				fm.VerifAppendFootprints(fp)
+			default:
+				// decoy of another family
+				fm.AddFace(pool[i], location, font.Description{Family: "c15 decoy", Aspect: a})
+			}
 		}
 		switch path {
 		case "public-exact":
@@ -170,25 +269,87 @@ func checkPublic(t ev.TB, cands []font.Aspect, q font.Aspect, path string) {
 		}
 		face := fm.ResolveFace('a')
 		if face == nil {
-			ev.Fail(t, "narrow", c, "ResolveFace returned nil with %d faces added", len(cands))
+			ev.Fail(t, "narrow", c, "ResolveFace returned nil with %d faces added", len(set))
 		}
 		family, aspect = fm.FontMetadata(face.Font)
 		loc = fm.FontLocation(face.Font)
 	}()
 	want := Best(cands, q)
-	if family != "c15family" {
+	first := order[Narrow(cands, q)[0]]
+	wantLoc := faceFile(first, roles[first])
+	if loc.File != wantLoc || aspect != want {
+		ev.Fail(t, "narrow", c, "%s: font set=%v roles=%v (candidate list %v) query=%v: resolved %s (%q %v); CSS Fonts 5.2 selects %v among the candidates, first carried by %s",
+			path, set, roles, order, q, loc.File, family, aspect, want, wantLoc)
+	}
+	if family != "c15family" && family != "c15monofamily" {
 		ev.Fail(t, "narrow", c, "%s: FontMetadata family %q", path, family)
-	}
-	if aspect != want {
-		ev.Fail(t, "narrow", c, "%s: candidates=%v query=%v: resolved face has aspect %v, CSS Fonts 5.2 selects %v", path, cands, q, aspect, want)
-	}
-	first := Narrow(cands, q)[0]
-	if wantLoc := fmt.Sprintf("c15/face%02d.otf", first); loc.File != wantLoc {
-		ev.Fail(t, "narrow", c, "%s: candidates=%v query=%v: resolved %s, the first added face with the selected aspect is %s", path, cands, q, loc.File, wantLoc)
 	}
 }
 
+// checkPublic: the candidates are the whole font set (trivial embedding).
+func checkPublic(t ev.TB, cands []font.Aspect, q font.Aspect, path string) {
+	checkEmbedded(t, cands, make([]int, len(cands)), q, path)
+}
+
+// adversarialDecoys returns n aspects for the non-candidate slots, chosen against the candidates:
+// the exact request (the CSS-best aspect of the whole set), then aspects that would win or divert
+// one of the three steps if a step looked at them.
+func adversarialDecoys(cands []font.Aspect, q font.Aspect, n int) []font.Aspect {
+	d := Defaults(q)
+	best := Best(cands, q)
+	other := font.StyleNormal
+	if best.Style == font.StyleNormal {
+		other = font.StyleItalic
+	}
+	farStretch := font.StretchUltraCondensed
+	if best.Stretch <= font.StretchNormal {
+		farStretch = font.StretchUltraExpanded
+	}
+	all := []font.Aspect{
+		d, // the exact request
+		{Style: best.Style, Weight: best.Weight, Stretch: d.Stretch}, // the selected face, at the requested stretch
+		{Style: other, Weight: d.Weight, Stretch: best.Stretch},      // the selected stretch, other style, requested weight
+		{Style: best.Style, Weight: d.Weight, Stretch: best.Stretch}, // the selected stretch and style, requested weight
+		{Style: d.Style, Weight: d.Weight, Stretch: farStretch},      // far on the other side
+	}
+	out := make([]font.Aspect, n)
+	for i := range out {
+		out[i] = all[i%len(all)]
+	}
+	return out
+}
+
+// embed places the candidates at the given slots of a font set of size n (slots[k] = position of
+// candidate k, class classes[k]) and fills the other slots with adversarial decoys.
+func embed(cands []font.Aspect, slots, classes []int, n int, q font.Aspect) (set []font.Aspect, roles []int) {
+	set = make([]font.Aspect, n)
+	roles = make([]int, n)
+	for i := range roles {
+		roles[i] = -1
+	}
+	for k, p := range slots {
+		set[p], roles[p] = cands[k], classes[k]
+	}
+	decoys := adversarialDecoys(cands, q, n)
+	k := 0
+	for i := range set {
+		if roles[i] < 0 {
+			set[i] = decoys[k]
+			k++
+		}
+	}
+	return set, roles
+}
+
 func runCase(t ev.TB, c narrowCase) {
+	if len(c.Set) > 0 {
+		set := make([]font.Aspect, len(c.Set))
+		for i, a := range c.Set {
+			set[i] = a.aspect()
+		}
+		checkEmbedded(t, set, c.Roles, c.Query.aspect(), c.Path)
+		return
+	}
 	cands := make([]font.Aspect, len(c.Candidates))
 	for i, a := range c.Candidates {
 		cands[i] = a.aspect()
@@ -295,6 +456,22 @@ func (ta *tally) flush() {
 	ev.LabelN("public_path", ta.public)
 }
 
+// hashedSlots derives k distinct slots of 0..n-1 (in arbitrary order) and k classes from h.
+func hashedSlots(h uint64, k, n int) (slots, classes []int) {
+	free := make([]int, n)
+	for i := range free {
+		free[i] = i
+	}
+	for i := 0; i < k; i++ {
+		h = mix(h + uint64(i) + 1)
+		j := int(h % uint64(len(free)))
+		slots = append(slots, free[j])
+		free = append(free[:j], free[j+1:]...)
+		classes = append(classes, int(h>>20)&3)
+	}
+	return slots, classes
+}
+
 func mix(x uint64) uint64 {
 	x ^= x >> 33
 	x *= 0xff51afd7ed558ccd
@@ -324,12 +501,17 @@ func TestPropEnumerate(t *testing.T) {
 			ta.add(cands, q, best)
 			counter++
 			if h := mix(counter ^ seed<<32 ^ uint64(shard)<<56); h%50 == 0 {
+				// the candidates sit at hash-chosen slots, with hash-chosen priority classes, of a
+				// font set holding three adversarial decoys
 				path := publicPaths[(h/50)%3]
-				checkPublic(t, cands, q, path)
+				n := len(cands) + 3
+				slots, classes := hashedSlots(h/150, len(cands), n)
+				set, roles := embed(cands, slots, classes, n, q)
+				checkEmbedded(t, set, roles, q, path)
 				ta.public++
 				ev.Label(path)
 				if ev.WantSample() {
-					ev.Sample(mkCase(cands, q, path))
+					ev.Sample(mkEmbedded(set, roles, q, path))
 				}
 			}
 		}
@@ -392,10 +574,34 @@ func TestPropRandomSets(t *testing.T) {
 		}
 		q := queries[rapid.IntRange(0, len(queries)-1).Draw(t, "query")]
 		path := "hook"
-		if p := rapid.IntRange(0, 23).Draw(t, "path"); p < 3 {
+		if p := rapid.IntRange(0, 8).Draw(t, "path"); p < 3 {
 			path = publicPaths[p]
 		}
 		c := mkCase(cands, q, path)
+		// public paths: the candidates are embedded, at arbitrary slots and with arbitrary priority
+		// classes, in a larger font set whose other slots hold decoys (the exact request, aspects
+		// chosen against the candidates, random ones)
+		var (
+			set   []font.Aspect
+			roles []int
+		)
+		if path != "hook" {
+			nd := rapid.IntRange(0, poolSize-n).Draw(t, "nDecoys")
+			adv := adversarialDecoys(cands, q, nd)
+			perm := rapid.Permutation(seq(n+nd)).Draw(t, "slots")
+			set, roles = make([]font.Aspect, n+nd), make([]int, n+nd)
+			for k, pos := range perm {
+				if k < n {
+					set[pos], roles[pos] = cands[k], rapid.IntRange(0, 3).Draw(t, "class")
+				} else {
+					set[pos], roles[pos] = adv[k-n], -1
+					if rapid.IntRange(0, 2).Draw(t, "randomDecoy") == 0 {
+						set[pos] = genAspect(grid).Draw(t, "decoy")
+					}
+				}
+			}
+			c = mkEmbedded(set, roles, q, path)
+		}
 		if ev.WantSample() {
 			ev.Sample(c)
 		}
@@ -403,9 +609,133 @@ func TestPropRandomSets(t *testing.T) {
 		nt, labels := classify(cands, q, best)
 		ev.Case(nt, c, append(labels, "random_"+path)...)
 		if path != "hook" {
-			checkPublic(t, cands, q, path)
+			checkEmbedded(t, set, roles, q, path)
+			if !equalInts(embeddedOrder(roles, path), seq(len(set))) {
+				ev.Label("random_candidates_not_identity")
+			}
 		}
 	})
+}
+
+func seq(n int) []int {
+	out := make([]int, n)
+	for i := range out {
+		out[i] = i
+	}
+	return out
+}
+
+func equalInts(a, b []int) bool {
+	if len(a) != len(b) {
+		return false
+	}
+	for i := range a {
+		if a[i] != b[i] {
+			return false
+		}
+	}
+	return true
+}
+
+// ---- exhaustive embeddings ----
+
+// TestPropEmbeddings: small-scope exhaustive enumeration of the ARGUMENT SHAPE of the matcher:
+// every candidate multiset of size 1-3 of a 2 x 2 x 2 aspect grid, placed at every ordered choice
+// of slots of a font set of 5 (every subset of positions, every order of the candidate list), the
+// other slots holding decoys chosen against the candidates, against 18 requests, through the
+// public path that can produce that order (any order: script fallback; two interleaved increasing
+// runs: exact family; increasing: all three, rotated).
+func TestPropEmbeddings(t *testing.T) {
+	shard, nshards := ev.Shard()
+	var tiny []font.Aspect
+	for _, st := range []font.Stretch{font.StretchCondensed, font.StretchExpanded} {
+		for _, sl := range Styles {
+			for _, w := range []font.Weight{300, 700} {
+				tiny = append(tiny, font.Aspect{Style: sl, Weight: w, Stretch: st})
+			}
+		}
+	}
+	var queries []font.Aspect
+	for _, st := range []font.Stretch{0, font.StretchCondensed, font.StretchExtraExpanded} {
+		for _, sl := range []font.Style{0, font.StyleItalic} {
+			for _, w := range []font.Weight{0, 300, 800} {
+				queries = append(queries, font.Aspect{Style: sl, Weight: w, Stretch: st})
+			}
+		}
+	}
+	const n = 5
+	maxK := 3
+	var total, nt, nonIdentity, counter int64
+	// ordered choices of k distinct slots
+	var arrangements func(k int, used int, cur []int, f func([]int))
+	arrangements = func(k int, used int, cur []int, f func([]int)) {
+		if len(cur) == k {
+			f(cur)
+			return
+		}
+		for p := 0; p < n; p++ {
+			if used&(1<<p) == 0 {
+				arrangements(k, used|1<<p, append(cur, p), f)
+			}
+		}
+	}
+	eval := func(cands []font.Aspect) {
+		counter++
+		if int(counter)%nshards != shard {
+			return
+		}
+		arrangements(len(cands), 0, nil, func(slots []int) {
+			// classes that make the path hand over the candidates in exactly this order
+			classes := make([]int, len(slots))
+			runs := 0
+			for k := 1; k < len(slots); k++ {
+				if slots[k] < slots[k-1] {
+					runs++
+				}
+				classes[k] = runs
+			}
+			var paths []string
+			switch runs {
+			case 0:
+				paths = publicPaths
+			case 1:
+				paths = publicPaths[:2]
+			default:
+				paths = publicPaths[1:2]
+			}
+			for qi, q := range queries {
+				path := paths[(qi+int(total))%len(paths)]
+				set, roles := embed(cands, slots, classes, n, q)
+				if got := embeddedOrder(roles, path); !equalInts(got, slots) {
+					t.Fatalf("embedding: wanted candidate order %v, the classes give %v", slots, got)
+				}
+				checkEmbedded(t, set, roles, q, path)
+				total++
+				if !ExactOnAllAxes(cands, q) {
+					nt++
+				}
+				if !equalInts(slots, seq(len(slots))) {
+					nonIdentity++
+				}
+				if total%9973 == 0 && ev.WantSample() {
+					ev.Sample(mkEmbedded(set, roles, q, path))
+				}
+			}
+		})
+	}
+	buf := make([]font.Aspect, 0, 3)
+	for i := range tiny {
+		eval(append(buf[:0], tiny[i]))
+		for j := i; j < len(tiny) && maxK >= 2; j++ {
+			eval(append(buf[:0], tiny[i], tiny[j]))
+			for k := j; k < len(tiny) && maxK >= 3; k++ {
+				eval(append(buf[:0], tiny[i], tiny[j], tiny[k]))
+			}
+		}
+	}
+	ev.CaseEnum(total, nt)
+	ev.LabelN("embedded_in_set_of_5", total)
+	ev.LabelN("embedded_candidates_not_identity", nonIdentity)
 }
 
 // ---- replay ----
